@@ -378,6 +378,24 @@ func (g *gctx) genStmt(d int, indent string) *gnode {
 	if g.bias == 'T' && g.r.Intn(2) == 0 {
 		return g.genIterStmt(d, indent)
 	}
+	if g.bias == 'K' && g.r.Intn(3) == 0 {
+		// values kept alive across later operations: a later write into a shared backing store shows when they are printed
+		g.use("keep-alive")
+		switch g.r.Intn(6) {
+		case 0:
+			return gn(indent, "kept := ", pos("receiver", g.genA(1)), "$([]){|pr| pr[0] + [pr]}\n", indent, "kept.p\n")
+		case 1:
+			return gn(indent, "kp := [1, 2, 3]$(nil){|pr| pr[0] || {|| pr}}\n", indent, "kp().p\n")
+		case 2:
+			return gn(indent, "ka1 := ", pos("assigned", g.genA(1)), "\n", indent, "kb1 := [*ka1, ", pos("element", g.genI(1)), "]\n", indent, "kc1 := [*ka1, ", pos("element", g.genI(1)), "]\n", indent, "[ka1, kb1, kc1].p\n")
+		case 3:
+			return gn(indent, "ko1 := {ka: 1}\n", indent, "ko2 := {**ko1, **{kb: ", pos("pair-value", g.genI(1)), "}}\n", indent, "{|ka: 0, kb: 0, kc: 0| [ka, kb, kc]}(**ko1, **{kc: 3}).p\n", indent, "[ko1, ko2].p\n")
+		case 4:
+			return gn(indent, "kx1 := ", pos("assigned", g.genA(1)), " + [7]\n", indent, "kx2 := kx1 + [8]\n", indent, "kx3 := kx1 + [9]\n", indent, "[kx1, kx2, kx3].p\n")
+		default:
+			return gn(indent, "kz := ", pos("assigned", g.genA(1)), "@{|x| [x]}\n", indent, "kw := kz@{|y| y + [0]}\n", indent, "[kz, kw].p\n")
+		}
+	}
 	if g.bias == 'E' && g.r.Intn(6) == 0 {
 		g.use("stdin")
 		switch g.r.Intn(4) {
@@ -406,6 +424,20 @@ func (g *gctx) genStmt(d int, indent string) *gnode {
 			return gn(indent, "{|a, b| [\\1, \\2, \\8, \\9, \\10, \\11, \\12, \\0.len, a, b].p}(", args, ")\n")
 		}
 		return gn(indent, "{wide: m{|p| [\\1.ka, \\2, \\9, \\10, \\11, p, \\0.len].p}, ka: 7}.wide(", args, ")\n")
+	}
+	if g.r.Intn(16) == 0 {
+		// a list chain calling a user-defined method on every element with several arguments
+		g.use("method-list-chain")
+		n := 1 + g.r.Intn(12)
+		args := gn()
+		for i := 0; i < n; i++ {
+			if i > 0 {
+				args.parts = append(args.parts, ", ")
+			}
+			args.parts = append(args.parts, pos("argument", gn(fmt.Sprint(10*(i+1)))))
+		}
+		ch := []string{"@", "=@", "~@", "&@"}[g.r.Intn(4)]
+		return gn(indent, "[{kn: 1, show: m{|a, b, c| [self.kn, a, b, c, \\0.len, \\2]}}, {kn: 2, show: m{|a, b, c| [self.kn, a, c, \\0.len, \\3]}}, {kn: 3, show: m{|a| [self.kn, a, \\0.len]}}]", ch, "show(", args, ").p\n")
 	}
 	if g.r.Intn(14) == 0 {
 		// lonely chains: the receiver may be nil; arguments are evaluated all the same
@@ -522,6 +554,11 @@ func (g *gctx) genFuncDef(d int, indent string) *gnode {
 	} else {
 		k := 1 + g.r.Intn(4)
 		for i := 0; i < k; i++ {
+			if i == 1 && g.r.Intn(4) == 0 {
+				// a yield in an ordinary function: its value is the call's result, the rest of the body still runs
+				g.use("func-yield")
+				n.parts = append(n.parts, indent+"  yield ", pos("yielded", sub.genI(1)), "\n")
+			}
 			n.parts = append(n.parts, sub.genStmt(d-1, indent+"  "))
 		}
 		if kw != "" && g.r.Bool() {
@@ -546,6 +583,11 @@ func (g *gctx) genIterStmt(d int, indent string) *gnode {
 			fmt.Sprintf("recur(i + step)\n%s  yield i if i < %d\n", indent, lim),
 			fmt.Sprintf("seen := i\n%s  yield seen if i < %d\n%s  recur(i + 1, step: step)\n", indent, lim, indent),
 		}[g.r.Intn(4)]
+		if g.r.Intn(3) == 0 {
+			g.use("iterator-positions")
+			return gn(indent, "gen := <{|i, step: 1|\n", indent, "  yield ", pos("yielded", gn("i")), " if i < ", pos("operand", gn(fmt.Sprint(lim))), "\n",
+				indent, "  recur(i + ", pos("argument", gn("1")), ")\n", indent, "}>\n")
+		}
 		return gn(indent, "gen := <{|i, step: 1|\n", indent, "  ", body, indent, "}>\n")
 	}
 	if _, ok := g.pickVar('H'); !ok && g.r.Intn(3) == 0 {
